@@ -123,3 +123,51 @@ def sibling_rule(ctx, R, a, b, expected_diff=(), what=""):
             diffs.append(f"{kind}: only in {a.rsplit('::', 1)[1]}: {sorted(xa - xb - exp)[:4]}, only in {b.rsplit('::', 1)[1]}: {sorted(xb - xa - exp)[:4]}")
     ctx.inst(R, f"siblings:{a.rsplit('::', 1)[1]}~{b.rsplit('::', 1)[1]}", not diffs, ba.span, (what or "siblings use the same callees and fields") if not diffs else
              f"sibling implementations `{a}` and `{b}` disagree ({'; '.join(diffs)}): one of them lacks a step the other performs")
+
+
+def _uses_of(b, l):
+    out = []
+    for bb in sorted(b.live_blocks()):
+        for st in b.blocks[bb]["st"]:
+            r = st.get("r")
+            if not r:
+                continue
+            for o in [r.get("o"), r.get("a"), r.get("b")] + list(r.get("ops", [])):
+                if isinstance(o, dict) and op_base(o) == l:
+                    out.append(bb)
+            if isinstance(r.get("p"), dict) and r["p"]["l"] == l:
+                out.append(bb)
+        t = b.term(bb)
+        if t["k"] == "call" and any(op_base(a) == l for a in t["args"]):
+            out.append(bb)
+        if t["k"] == "switch" and op_base(t["d"]) == l:
+            out.append(bb)
+    return out
+
+
+def dropped_results_rule(ctx, R, callee_pat, allow, crates):
+    """error discipline: the Result / Option / bool returned by the listed in-repo operations must be looked at (`?`, match, if, passed
+    on, returned); the enumerated `let _ =` sites (root function -> reason) are the only places where it may be discarded"""
+    n = 0
+    for b in sorted(ctx.w.bodies.values(), key=lambda b: b.id):
+        if b.crate not in crates:
+            continue
+        for bb, t in b.calls(callee_pat):
+            if t["d"].get("p") or is_macro_noise(t):
+                continue
+            dl = t["d"]["l"]
+            ty = b.tys[b.locals[dl]["ty"]]
+            if ty.get("adt") not in ("std::result::Result", "std::option::Option") and ty.get("s") != "bool":
+                continue
+            n += 1
+            root = b
+            while root.parent and root.parent in ctx.w.bodies:
+                root = ctx.w.bodies[root.parent]
+            k = f"{root.id}<-{t['f'].rsplit('::', 2)[-2]}::{t['f'].rsplit('::', 1)[-1]}#{n}"
+            if dl == 0 or _uses_of(b, dl):
+                ctx.ok(R, f"consumed:{root.id}<-{t['f'].rsplit('::', 1)[-1]}", t["s"], "result is examined / propagated")
+            elif root.id in allow:
+                ctx.info(R, f"discarded:{root.id}<-{t['f'].rsplit('::', 1)[-1]}", t["s"], "allowed discard: " + allow[root.id])
+            else:
+                ctx.bad(R, f"discarded:{root.id}<-{t['f'].rsplit('::', 1)[-1]}", t["s"],
+                        f"`{root.id}` discards the result of `{t['f']}`: a failure is silently swallowed where the caller is told the operation succeeded")
